@@ -14,6 +14,12 @@ func (c *fctx) safety(fr *frame, kind string, pos token.Pos, guard, goal string)
 	if goal == "true" {
 		return
 	}
+	if kind != "conv-exact" && c.fn != nil {
+		// a function whose interface includes panicking (its caller recovers) may also panic at run time
+		if ct := c.P.ContractFor(c.fn); ct != nil && ct.MayPanic {
+			return
+		}
+	}
 	c.addObl(&Obligation{Name: fr.prefix + "safe:" + kind + "@" + c.P.SrcLine(pos), Kind: "safety", Guard: guard, Goal: goal, Pos: c.pos(pos), SrcLine: c.P.SrcLine(pos)})
 }
 
@@ -612,6 +618,9 @@ func (c *fctx) convert(fr *frame, x *ssa.Convert, reach string, st *state) val {
 		tlo, thi, _ := IntRange(tb)
 		if rangeWithin(flo, fhi, tlo, thi) {
 			return val{t: v.t}
+		}
+		if ct := c.P.ContractFor(c.fn); ct != nil && ct.ExactConv {
+			c.safety(fr, "conv-exact", x.Pos(), reach, fmt.Sprintf("(and (<= %s %s) (<= %s %s))", tlo, v.t, v.t, thi))
 		}
 		return val{t: c.define("conv", "Int", Wrap(v.t, tb))}
 	case fIsB && tIsB && fb.Info()&types.IsString != 0 && tb.Info()&types.IsString != 0:
